@@ -16,6 +16,7 @@ use std::rc::Rc;
 pub const DEF: PropDef = PropDef { id: "C07", strata, run, setup, canaries: &["panic", "io"] };
 
 fn setup(ctx: &mut Ctx) {
+    ctx.floor("files-from-the-hostile-corpus", 1000);
     ctx.floor("files", 1000);
     ctx.floor("open:both-ok", 500);
     ctx.floor("open:both-err", 100);
@@ -389,6 +390,12 @@ fn trunc(o: &Obs) -> String {
 /// file offset behind the hole moved up accordingly (offsets near 2^32 for ELF32, 2^32..2^62 for ELF64). Every
 /// content query must give what the slice parser gives on the original file.
 fn sparse_case(ctx: &mut Ctx, enc: Enc) {
+    // offsets beyond 2^32 cannot be expressed in a 32-bit usize: on such targets the relocated stream is legitimately
+    // refused, so the relation "same answers as the small original" only holds on 64-bit targets
+    if usize::BITS < 64 {
+        ctx.count("sparse:not-on-this-target");
+        return;
+    }
     let mut o = GenOpts::standard();
     o.weird_views = false;
     o.max_syms = 8;
@@ -512,14 +519,25 @@ fn run(ctx: &mut Ctx, si: usize, case: u64) {
             judge_file(ctx, &b.bytes, &format!("generated {} with {} sections", enc.name(), b.shnum), 300);
         }
         _ => {
-            let kind = ctx.rng.below(5);
+            let kind = ctx.rng.below(6);
             let (bytes, what) = match kind {
+                5 => {
+                    // the shared hostile corpus (adversarial hash chains, overlapping version records, huge notes, header
+                    // link rings, mutated seeds): whatever the slice parser makes of them, the stream parser must too
+                    let k = ctx.rng.below(crate::corpus::KINDS);
+                    let input = crate::corpus::gen_input(&mut ctx.rng, k, false);
+                    ctx.count("files-from-the-hostile-corpus");
+                    (input.bytes, input.what)
+                }
                 0 | 1 | 2 => {
                     let (spec, _) = gen_object(&mut ctx.rng, enc, &GenOpts::unmodelled());
                     let mut b = build(&spec, &mut ctx.rng);
                     let n = 1 + ctx.rng.usize_below(3);
                     let mut log = if kind == 2 { let k = 1 + ctx.rng.usize_below(4); mutate::maximize_ranges(&mut ctx.rng, &mut b, k) } else { Vec::new() };
                     log.extend(mutate::structured(&mut ctx.rng, &mut b, if kind == 2 { 0 } else { n }));
+                    if ctx.rng.chance(1, 8) {
+                        log.extend(mutate::alias_tables(&mut ctx.rng, &mut b));
+                    }
                     (b.bytes, format!("generated {} + {:?}", enc.name(), log))
                 }
                 3 => {
